@@ -40,6 +40,33 @@ theorem value_mapping (raw slope inter imin imax omin omax : ℚ) (h : imax ≠ 
     imin * ps + pi = omin ∧ imax * ps + pi = omax :=
   scaling_algebra raw slope inter imin imax omin omax h
 
+/-- CONTENT, not only boxes: `Volume.convert` is the conversion loop with the chunk it hands to
+    `write_chunk` (slicing `volume[x0:x1, y0:y1, z0:z1, :]`, `moveaxis` to `(C, Z, Y, X)`; compared call by
+    call with the real loop on identity volumes). Reading the stored chunks back the way every reader of the
+    format does (the chunk whose box contains the position, C-order index in its `(C, Z, Y, X)` array)
+    returns, for EVERY voxel position and channel, the input value of that same position: none missing,
+    none from a wrong place, border chunks and the axis transposition included — for all volume sizes, channel
+    counts and non-cubic chunk sizes. -/
+theorem every_voxel_reads_back {α} (vol : Nat → Nat → Nat → Nat → α) (C : Nat) (size cs : Nat × Nat × Nat)
+    (hc : 0 < cs.1 ∧ 0 < cs.2.1 ∧ 0 < cs.2.2) (x y z c : Nat)
+    (hx : x < size.1) (hy : y < size.2.1) (hz : z < size.2.2) (hch : c < C) :
+    readVoxel (convert vol C size cs) x y z c = some (vol x y z c) :=
+  readVoxel_convert vol C size cs hc x y z c hx hy hz hch
+
+/-- the same statement about the EXECUTABLE model `rewriteScaling` (run by the driver over exact rationals
+    next to the slope/intercept the real code leaves on the nibabel proxy): for every raw value the rewritten
+    scaling is "header scaling, then [input_min, input_max] onto the target range"; a voxel whose scaled
+    value is input_min lands on the target minimum, input_max on the target maximum -/
+theorem value_mapping_of_model {K : Type} [Field K] (raw slope inter imin imax omin omax : K) (h : imax ≠ imin) :
+    let r := rewriteScaling slope inter imin imax omin omax
+    raw * r.1 + r.2 = ((raw * slope + inter) - imin) * ((omax - omin) / (imax - imin)) + omin ∧
+    (∀ v, v * slope + inter = imin → v * r.1 + r.2 = omin) ∧
+    (∀ v, v * slope + inter = imax → v * r.1 + r.2 = omax) :=
+  rewriteScaling_spec raw slope inter imin imax omin omax h
+
+example : readVoxel (convert (fun x y z c => 1000 * x + 100 * y + 10 * z + c) 2 (3, 2, 3) (2, 2, 2)) 2 1 2 1
+    = some 2121 := by decide
+
 example : (volumeLoop (5, 4, 3) (2, 3, 2)).length = 12 := by decide
 
 end NgVerif.Props.C01
